@@ -696,12 +696,9 @@ reprocess:
 			break;
 			}
 		case '%':
-			if (location + 1 > max_len) {
-				return max_len;
-			}
-			serialize[location++] = '%';
-                        sformat_length = 0;
-                        sformat_precision = QB_FALSE;
+			/* a literal '%': takes no argument, and has to be
+			 * stepped over or it would start a directive */
+			format++;
 			break;
 
 		}
